@@ -985,6 +985,11 @@ pub fn apply_env(e: Ev) {
         }),
         Ev::ConnClose(c) => world::with(|w| {
             let step = w.step;
+            // the interleaving engine also closes "the connection the running operation is about to create"
+            // (index = number of connections when the group started): nothing to do while it does not exist
+            if c as usize >= w.conns.len() {
+                return;
+            }
             let cs = &mut w.conns[c as usize];
             cs.open = false;
             cs.close_step = Some(step);
